@@ -25,6 +25,9 @@ def upload_buffers(size, thr, chunk, up, rc, c0, c1):
         return v if v == '~' else 'c11: ' + v[5:]
     if N.finish(c)[0] != 'ok':
         return 'c11: transfer failed'
+    r = N.effect_reason(c, 'up-stream', size)
+    if r:
+        return 'c11: ' + r
     eff = H.effective_chunk(chunk)
     cap = eff if eff > thr else thr
     live = 0
@@ -58,6 +61,9 @@ def download_window(size, thr, chunk, io, dn, rc, iq, c0, c1, c2):
         return v if v == '~' else 'c11: ' + v[5:]
     if N.finish(c)[0] != 'ok':
         return 'c11: transfer failed'
+    r = N.effect_reason(c, 'down-stream', size)
+    if r:
+        return 'c11: ' + r
     # part k = k-th GetObject request (FIFO starts, no faults); a part is finished when its request task ended
     part_tid = []
     finished = set()
